@@ -60,7 +60,17 @@ def build_go(race=False):
     """Build the harness against /repo/v2's current working tree with the hooks enabled."""
     os.makedirs(BUILD, exist_ok=True)
     out = KV + ("-race" if race else "")
-    cmd = ["go", "build", "-tags", "verif"] + (["-race"] if race else []) + ["-o", out, "./cmd/kv"]
+    modflag = []
+    if os.path.realpath(REPO) != "/repo":
+        # checks run against another checkout (VERIF_REPO): same go.mod with the replace redirected
+        alt = os.path.join(BUILD, "go.alt.mod")
+        src = open(os.path.join(HARNESS, "go.mod")).read()
+        src = re.sub(r"(github.com/flanglet/kanzi-go/v2\s*=>\s*)\S+", lambda m: m.group(1) + os.path.join(REPO, "v2"), src)
+        open(alt, "w").write(src)
+        if os.path.exists(os.path.join(HARNESS, "go.sum")):
+            shutil.copy(os.path.join(HARNESS, "go.sum"), os.path.join(BUILD, "go.alt.sum"))
+        modflag = ["-modfile=" + alt]
+    cmd = ["go", "build"] + modflag + ["-tags", "verif"] + (["-race"] if race else []) + ["-o", out, "./cmd/kv"]
     with Lock("go.lock"):
         rc, o, dt = run(cmd, cwd=HARNESS, env=goenv(), timeout=900)
     return rc == 0, o, dt
@@ -339,7 +349,11 @@ def check_property(pid, tier, seed):
     corr_compared, corr_diffs = 0, 0
     if report["build"]["go"]["ok"]:
         runs = []
+        rc_l, known_cmds, _ = run([KV], env=goenv(), timeout=60)
         for st in P.get("streams", []):
+            if not re.search(r"\b" + re.escape(st["name"]) + r"\b", known_cmds):
+                report["streams"].append({"stream": st["name"], "skipped": "not built into the harness yet"})
+                continue
             corpus = os.path.join(VERIF, "corpus", pid, st["name"] + ".ops")
             if os.path.exists(corpus):
                 runs.append((st, corpus, st["name"] + "-corpus"))
